@@ -366,7 +366,8 @@ class C19(object):
         real.reset_world()
         sig = repr(case.get("ops")) + case.get("style", "")
         return {"violations": out[:3], "stats": {"events": len(B.trace), "flushes": len(B.flushes), "probes": probes},
-                "sig": sig, "nontrivial": any(k.startswith("repl:") for k in probes) and any(k.startswith("conv:") for k in probes), "digest": sig}
+                "sig": sig, "nontrivial": any(k.startswith("repl:") for k in probes) and any(k.startswith("conv:") for k in probes),
+                "digest": sig + "|" + repr(sorted(probes.items())) + repr([(f["kind"], f["tokens"]) for f in B.flushes])}
 
 
 PROP = C19()
